@@ -5,8 +5,8 @@ Property C16 — lemma-level theorems about the model of simplify.rs
 What is proved (for all inputs):
   ✔ `grow_spec`, `reglue_involutive`, `reglue_accepts_iff` (the hypothesis of `reglue_involutive`
     is exactly the condition under which no assertion fires), `reglue_complete`, `reglue_empty`
-  ○ `collapse_complete_partial` (every D-set `collapse` returns is complete and involutive;
-    termination of the inner `while` is open: `collapse_complete_statement`),
+  ○ `collapse_complete` (connector-closed removed set: terminates, no assertion, result described
+    chamber by chamber), `collapse_complete_partial` (whatever `collapse` returns is complete),
     `cut_face_commutes`, `cut_tile_commutes`.
   ◐ everything global (sphericity of tiles and vertex figures preserved, homeomorphism type,
     census of the result) is Spec-only: evaluated by Spec/C16.lean on the outputs of the real code.
@@ -14,6 +14,7 @@ What is proved (for all inputs):
 import DSymVerif.Proofs.Simplify
 import DSymVerif.Proofs.SimplifyCut
 import DSymVerif.Proofs.SimplifyTile
+import DSymVerif.Proofs.SimplifyCollapse
 
 namespace DSymVerif.C16
 open DSymVerif DSymVerif.DS DSymVerif.Simp
@@ -97,21 +98,27 @@ theorem reglue_empty (ds : DSetData) (index : Nat) : reglue ds [] index = .ok no
 
 /-! ### collapse -/
 
-/-- ○ `collapse_complete`, full statement (open): if the removed set is a proper non-empty set of
-    chambers that is closed under the *connector* (this is what every caller passes: unions of
-    (2,3)-orbits with connector 2, of 3-edges or of (0,1,3)-orbits with connector 3), `collapse`
-    returns a complete involutive D-set.  (DESIGN §6 says "closed under all operations but the
-    connector"; with that hypothesis the inner loop never runs at all and a removed connector
-    neighbour of a kept chamber makes `build_set` assert, so the hypothesis that matters is
-    closure under the connector: then the walk e ↦ s_i s_c e started at s_i(src) reaches the kept
-    chamber s_c(src) after at most one turn around the (i, c)-orbit.)
-    Missing: that pigeonhole argument for the `while src2img[e] == 0` loop (fuel `size + 1`), the
-    mutual inverseness of `src2img` / `img2src`, and symmetry of the resulting closure. -/
-def collapse_complete_statement : Prop :=
-  ∀ (ds : DSetData) (remove : List Nat) (connector : Nat), ValidSet ds → connector ≤ ds.dim →
-    (∀ d ∈ remove, 1 ≤ d ∧ d ≤ ds.size) → remove ≠ [] → distinctCount ds.size remove < ds.size →
-    (∀ d ∈ remove, ds.opU connector d ∈ remove) →
-    ∃ s, collapse (.dset ds) remove connector = .ok (some (.dset s)) ∧ ValidSet s
+/-- ○ **`collapse_complete`.**  On a complete D-set, for a non-empty proper set of chambers that
+    is closed under the *connector* (what every caller passes: unions of (2,3)-orbits with
+    connector 2, of 3-edges or of (0,1,3)-orbits with connector 3), `collapse` returns: every inner
+    `while src2img[e] == 0` loop ends within its `size + 1` rounds (the walk `e ↦ s_i s_c e` started
+    at `s_i x` reaches the kept chamber `s_c x` after at most one turn around its cycle), no
+    `unwrap`, index check or assertion of `PartialDSet::set` fires, `src2img` / `img2src` are
+    mutually inverse on the kept chambers, and the result is a complete D-set with involutive
+    operations and `size − |remove|` chambers in which the connector acts as before and every other
+    operation leads to the first kept chamber of that walk (`CollapseRes`).
+    (DESIGN §6 says "closed under all operations but the connector"; under that hypothesis the
+    inner loop never runs and a removed connector neighbour of a kept chamber makes `set` assert:
+    the hypothesis that matters is closure under the connector.) -/
+theorem collapse_complete {ds : DSetData} {remove : List Nat} {c : Nat} (hv : ValidSet ds)
+    (hdim : 1 ≤ ds.dim) (hc : c ≤ ds.dim) (hr : ∀ d ∈ remove, 1 ≤ d ∧ d ≤ ds.size) (hne : remove ≠ [])
+    (hlt : distinctCount ds.size remove < ds.size) (hcl : ∀ d ∈ remove, ds.opU c d ∈ remove) :
+    ∃ s num, collapse (.dset ds) remove c = .ok (some (.dset s)) ∧ CollapseRes ds remove c s num :=
+  collapse_complete_full hv hdim hc hr hne hlt hcl
+
+/-- the s3-edge {1, 5} of `ex8` is closed under the connector 3 -/
+example : ∃ s num, collapse (.dset ex8) [1, 5] 3 = .ok (some (.dset s)) ∧ CollapseRes ex8 [1, 5] 3 s num :=
+  collapse_complete ex8_valid (by decide) (by decide) (by decide) (by decide) (by decide) (by decide)
 
 /-- ○ **`collapse_complete_partial`.**  Whatever the arguments: every D-set the model of
     `collapse` returns has `size − |remove|` chambers, every entry is a chamber (complete) and every
@@ -144,7 +151,8 @@ theorem cut_face_commutes {ds s : DSetData} (hv : ValidSet ds) (hdim : ds.dim = 
     ∀ c, ds.size < c → c ≤ ds.size + 8 →
       s.opU 2 (s.opU 0 c) = s.opU 0 (s.opU 2 c) ∧ s.opU 3 (s.opU 0 c) = s.opU 0 (s.opU 3 c) ∧
       s.opU 3 (s.opU 1 c) = s.opU 1 (s.opU 3 c) :=
-  cutFace_commutes hv hdim h11 h12 h21 h22 h
+  let ⟨a, b, c, d, e, _⟩ := cutFace_commutes hv hdim h11 h12 h21 h22 h
+  ⟨a, b, c, d, e⟩
 
 /-- `cut_face(ex8, 1, 2)` returns: the eight old chambers 1, 2, 6, 5, 3, 4, 8, 7 are distinct -/
 example : ∃ s, cutFace ex8 1 2 = .ok s := isOk_exists (by decide +kernel)
